@@ -414,6 +414,23 @@ def static_obligations(repo, tier):
             if fn.name == "__init__" and is_rolling:
                 ps = _sig(fn)["pos"]; stored = set().union(*[v for k, v in init_attr_params.items() if k != "__params__"]) if len(init_attr_params) > 1 else set()
                 row(f"api.py::{cname}.__init__::stores-arguments", set(ps) <= stored, f"parameters {ps}; stored on self: {sorted(stored)}")
+                # a given (non-None) argument is stored UNCHANGED: the stored expression is evaluated (the real expression, compiled from the AST) for every
+                # combination of small argument values incl. None and 0; only None may be replaced by a default
+                import itertools as _it
+                bad = []; dom = (None, 0, 1, 2, 3)
+                for n in ast.walk(fn):
+                    if not (isinstance(n, ast.Assign) and len(n.targets) == 1 and isinstance(n.targets[0], ast.Attribute) and isinstance(n.targets[0].value, ast.Name) and n.targets[0].value.id == "self"): continue
+                    names = {x.id for x in ast.walk(n.value) if isinstance(x, ast.Name)}; own = n.targets[0].attr.lstrip("_")
+                    if own not in ps or not names or not names <= set(ps): continue
+                    code = compile(ast.Expression(n.value), "<init>", "eval"); used = sorted(names)
+                    for combo in _it.product(dom, repeat=len(used)):
+                        env = dict(zip(used, combo))
+                        if env[own] is None: continue
+                        try: val = eval(code, {"__builtins__": {}}, env)
+                        except Exception as ex: val = f"raises {type(ex).__name__}"
+                        if val is not env[own] and val != env[own] or type(val) is not type(env[own]):
+                            bad.append(f"self.{n.targets[0].attr} = {ast.unparse(n.value)} stores {val!r} for {env}"); break
+                row(f"api.py::{cname}.__init__::stores-unchanged", not bad, "every given argument (incl. 0) is stored unchanged; only None is defaulted" + (": " + "; ".join(bad) if bad else ""))
                 continue
             if fn.name == "__getitem__":
                 ctor = [n for n in ast.walk(fn) if isinstance(n, ast.Call) and isinstance(n.func, ast.Name) and n.func.id in classes]
@@ -465,7 +482,7 @@ SCOPE = {"quick": "Series/DataFrames with 1..4 rows (designed cases and random c
                   "values float64 with NaN, int64, and (Series) datetime64[ns] with NaT. (2) data sweep on rotating non-default configurations: every key sequence over {null,0,1} x every value "
                   "pattern over {negative,zero,positive,null} for n<=3 for the cumulative group, and for the rolling and pandas-comparable reduction groups n<=2 plus at n=3 the patterns with a null or "
                   "without a zero. (3) seeded random cases. Methods: sum mean min max count size std var(ddof 0/1) first last median quantile agg(name|callable) apply nth head tail cumsum cummin "
-                  "cummax cumcount ema rolling(2,1)/(2)/(3,2).sum/mean/min/max/agg, mask/margins/ddof/q/halflife/index_by_groups passed through, iteration, groups, ngroups. "
+                  "cummax cumcount ema rolling(2,1)/(2)/(3,2)/(2,0).sum/mean/min/max/agg, mask/margins/ddof/q/halflife/index_by_groups passed through, iteration, groups, ngroups. "
                   "S tier: every public method of the six facade classes of api.py (115 obligations on the pinned text)",
          "thorough": "as quick with the data sweep complete up to n<=4 (all key sequences x all value patterns) for the three groups, four data draws per configuration (n=2..5), random cases up to 10 rows"}
 RULE = ("a case = (object kind, rows, index kind, key specification, key label kind, key sequence(s), value pattern, [] selection, method group); distinct = distinct canonical JSON; "
@@ -843,7 +860,7 @@ def _check_cum(sess, W, G):
 def _check_roll(sess, W, G):
     n = W.n; m = _mask_for(n); calls = 0
     o = lambda *a, **k: _one(sess, W, G, *a, cls="BaseGroupByRolling", **k)
-    for (w, mp) in ((2, 1), (2, None), (3, 2)):
+    for (w, mp) in ((2, 1), (2, None), (3, 2), (2, 0)):
         if w > n + 1: continue
         for op in ("sum", "mean", "min", "max"):
             calls += o(op, lambda g, op=op: getattr(g.rolling(w, mp), op)(), lambda gb, v, op=op: getattr(gb, f"rolling_{op}")(v, window=w, min_periods=mp if mp is not None else w),
